@@ -144,6 +144,11 @@ func runC08(r *Run, rng *Rng, thorough bool) {
 			} else if gderr == nil && gettersOnly(observe(gc)) != gettersOnly(observe(sc)) {
 				fail("like-sibling", "DecodeAndValidateClaimsFromCBOR result differs from DecodeClaimsFromCBOR")
 			}
+			if gderr == nil && gc != nil && sderr == nil {
+				if why := encodingsDiffer(gc, sc); why != "" {
+					fail("like-sibling", "DecodeAndValidateClaimsFromCBOR result differs from DecodeClaimsFromCBOR: "+why)
+				}
+			}
 		}
 		if sjerr == nil {
 			sc, sderr := psa.DecodeClaimsFromJSON(append([]byte{}, sj...))
@@ -160,6 +165,11 @@ func runC08(r *Run, rng *Rng, thorough bool) {
 				fail("like-sibling", "a decode-and-validate variant reports success and returns no claims")
 			} else if gderr == nil && gettersOnly(observe(gc)) != gettersOnly(observe(sc)) {
 				fail("like-sibling", "DecodeAndValidateClaimsFromJSON result differs from DecodeClaimsFromJSON")
+			}
+			if gderr == nil && gc != nil && sderr == nil {
+				if why := encodingsDiffer(gc, sc); why != "" {
+					fail("like-sibling", "DecodeAndValidateClaimsFromJSON result differs from DecodeClaimsFromJSON: "+why)
+				}
 			}
 			deprecatedAliases(r, "own JSON", sj)
 		}
@@ -178,6 +188,11 @@ func runC08(r *Run, rng *Rng, thorough bool) {
 				fail("like-sibling", "DecodeAndValidateEvidenceFromCOSE reports success and returns no evidence")
 			} else if gderr == nil && gettersOnly(observe(ge.Claims)) != gettersOnly(observe(se.Claims)) {
 				fail("like-sibling", "DecodeAndValidateEvidenceFromCOSE result differs from DecodeEvidenceFromCOSE")
+			}
+			if gderr == nil && ge != nil && ge.Claims != nil && sderr == nil {
+				if why := encodingsDiffer(ge.Claims, se.Claims); why != "" {
+					fail("like-sibling", "DecodeAndValidateEvidenceFromCOSE result differs from DecodeEvidenceFromCOSE: "+why)
+				}
 			}
 		}
 		line += " dvc=" + dvc + " dvj=" + dvj + " dve=" + dve
@@ -217,4 +232,25 @@ func runC08(r *Run, rng *Rng, thorough bool) {
 		}
 	})
 	extGates(r, rng, map[bool]int{false: 200, true: 5000}[thorough])
+}
+
+// encodingsDiffer: two claims-sets that are to be "exactly alike" also encode alike (CBOR and JSON, verdict and bytes).
+func encodingsDiffer(a, b psa.IClaims) string {
+	var ab, bb, aj, bj []byte
+	var e1, e2, e3, e4 error
+	if p, _ := safely(func() {
+		ab, e1 = psa.EncodeClaimsToCBOR(a)
+		bb, e2 = psa.EncodeClaimsToCBOR(b)
+		aj, e3 = psa.EncodeClaimsToJSON(a)
+		bj, e4 = psa.EncodeClaimsToJSON(b)
+	}); p {
+		return ""
+	}
+	if (e1 == nil) != (e2 == nil) || (e1 == nil && !bytes.Equal(ab, bb)) {
+		return fmt.Sprintf("CBOR encodings %x (%v) vs %x (%v)", ab, e1, bb, e2)
+	}
+	if (e3 == nil) != (e4 == nil) || (e3 == nil && !bytes.Equal(aj, bj)) {
+		return fmt.Sprintf("JSON encodings %s (%v) vs %s (%v)", aj, e3, bj, e4)
+	}
+	return ""
 }
